@@ -8,6 +8,7 @@ import (
 	"fmt"
 	"go/types"
 	"math/big"
+	"sort"
 	"strconv"
 	"strings"
 
@@ -62,8 +63,8 @@ func init() {
 		"strings.TrimSpace":            stringsConcrete1(strings.TrimSpace),
 		"strings.ToLower":              stringsConcrete1(strings.ToLower),
 		"strings.ToUpper":              stringsConcrete1(strings.ToUpper),
-		"strings.HasPrefix":            stringsConcrete2b(strings.HasPrefix),
-		"strings.HasSuffix":            stringsConcrete2b(strings.HasSuffix),
+		"strings.HasPrefix":            func(x *Exec, fn *ssa.Function, a []Value) Value { return x.strAffix(a[0], a[1], false) },
+		"strings.HasSuffix":            func(x *Exec, fn *ssa.Function, a []Value) Value { return x.strAffix(a[0], a[1], true) },
 		"strings.ReplaceAll":           stringsReplaceAll,
 		"strings.Repeat":               stringsRepeat,
 		"strconv.FormatInt":            strconvFormatInt,
@@ -84,6 +85,9 @@ func init() {
 		"(golang.org/x/text/unicode/norm.Form).Bytes":  normBytes,
 		"golang.org/x/crypto/pbkdf2.Key":               pbkdf2Key,
 		"bytes.Equal":                                  bytesEqualI,
+		"(*sync.Pool).Get":                             poolGet,
+		"(*sync.Pool).Put":                             poolPut,
+		"sort.SearchStrings":                           sortSearchStrings,
 		"crypto/rand.Read":                             randRead,
 	}
 }
@@ -1212,4 +1216,112 @@ func (x *Exec) randFill(sl SliceV) Value {
 
 func randRead(x *Exec, fn *ssa.Function, a []Value) Value {
 	return x.randFill(a[0].(SliceV))
+}
+
+
+// ---------------------------------------------------------------- sync.Pool
+
+// A Pool is modelled as the multiset of values Put so far; Get nondeterministically hands back
+// the most recently Put value or a new one (both are behaviours the real Pool can show).
+func (x *Exec) poolItems(p Ptr) *Object {
+	key := fmt.Sprintf("pool:%d%s", p.Obj.ID, pathKey(p.Path))
+	if o, ok := x.externs[key]; ok {
+		return o
+	}
+	o := x.newObj(key, nil, &ArrV{})
+	o.Global = p.Obj.Global
+	x.externs[key] = o
+	return o
+}
+
+func poolGet(x *Exec, fn *ssa.Function, a []Value) Value {
+	p := a[0].(Ptr)
+	items := x.poolItems(p)
+	arr := items.Val.(*ArrV)
+	x.syncEvent("pool-get", p.Obj.ID, p.Obj)
+	if n := len(arr.Elems); n > 0 {
+		if x.branch(x.fresh("pool_reuse", 0)) {
+			v := arr.Elems[n-1]
+			arr.Elems = arr.Elems[:n-1]
+			return v
+		}
+	}
+	// New field (last exported field of sync.Pool)
+	pv := x.loadPath(p.Obj.Val, p.Path).(*StructV)
+	st := pv.T.Underlying().(*types.Struct)
+	for i := 0; i < st.NumFields(); i++ {
+		if st.Field(i).Name() == "New" {
+			if f := pv.Fields[i]; f != nil {
+				return x.callValue(f, nil)
+			}
+		}
+	}
+	return IfaceV{}
+}
+
+func poolPut(x *Exec, fn *ssa.Function, a []Value) Value {
+	p := a[0].(Ptr)
+	items := x.poolItems(p)
+	arr := items.Val.(*ArrV)
+	x.syncEvent("pool-put", p.Obj.ID, p.Obj)
+	if iv, ok := a[1].(IfaceV); ok && iv.T == nil {
+		return nil
+	}
+	arr.Elems = append(arr.Elems, a[1])
+	if p.Obj.Global {
+		x.markShared(a[1])
+		if !x.inInit {
+			x.writes[p.Obj.Name+pathKey(p.Path)+"(pool)"] = true
+		}
+	}
+	return nil
+}
+
+// ---------------------------------------------------------------- sort.SearchStrings (table lifting)
+
+func sortSearchStrings(x *Exec, fn *ssa.Function, a []Value) Value {
+	elems := x.stringSliceElems(a[0])
+	list := make([]string, len(elems))
+	for i, e := range elems {
+		s, ok := e.(string)
+		if !ok {
+			panic(unsupported("sort.SearchStrings over symbolic list"))
+		}
+		list[i] = s
+	}
+	search := func(s string) int { return sort.SearchStrings(list, s) }
+	if s, ok := a[1].(string); ok {
+		return BVi(int64(search(s)), 64)
+	}
+	as := toAtoms(a[1])
+	if !simpleAtoms(as) {
+		panic(unsupported("sort.SearchStrings with opaque needle"))
+	}
+	if len(as) == 1 && as[0].K == ATok && as[0].Tab != nil {
+		keys := make([]int, len(as[0].Tab))
+		vals := make([]int, len(as[0].Tab))
+		for i, id := range as[0].Tab {
+			str, _ := x.in.Str(id)
+			keys[i] = i
+			vals[i] = search(str)
+		}
+		v, _ := pwApply(keys, vals, as[0].Idx, 64, BVi(0, 64))
+		return v
+	}
+	id, ok := x.tokenID(as)
+	if !ok {
+		panic(unsupported("sort.SearchStrings with composite needle"))
+	}
+	n := len(x.in.strs)
+	keys := make([]int, n)
+	vals := make([]int, n)
+	for i := 0; i < n; i++ {
+		keys[i] = i
+		vals[i] = search(x.in.strs[i])
+	}
+	// a token that is no interned string: any insertion point is possible
+	any := x.fresh("searchpos", 64)
+	x.addPC(Ule(any, BVi(int64(len(list)), 64)))
+	v, _ := pwApply(keys, vals, id, 64, any)
+	return v
 }
